@@ -260,7 +260,7 @@ def check_child(scn, meta, seed):
 def token_case(rng, seed):
     flavour = rng.choice(["rpc", "rpc", "sfn"])
     stream = rng.choice(["valid", "valid", "duplicate", "late", "forged", "truncated", "failure", "reply-then-callback",
-                         "error-reply", "other-token"])
+                         "error-reply", "other-token", "failure-no-cause", "failure-no-error", "failure-typed-wrong"])
     policy = rng.choice(["canonical", "shuffle", "latency-small"])
     cfg = E.policy_cfg(policy)
     cfg["execution_ttl"] = 600
@@ -336,6 +336,13 @@ def check_token(scn, meta, seed):
         if stream == "failure":
             sim.call_at(t0 + 3.0, send("SendTaskFailure", first, {"error": "E.Callback", "cause": "callback says no"}, "failure"),
                         None, kind="client", label="cb")
+        if stream == "failure-no-cause":
+            sim.call_at(t0 + 3.0, send("SendTaskFailure", first, {"error": "E.Callback"}, "failure"), None, kind="client", label="cb")
+        if stream == "failure-no-error":
+            sim.call_at(t0 + 3.0, send("SendTaskFailure", first, {"cause": "no error name given"}, "noerror"), None, kind="client", label="cb")
+        if stream == "failure-typed-wrong":
+            sim.call_at(t0 + 3.0, send("SendTaskFailure", first, {"error": ["E.Callback"], "cause": {"x": 1}}, "noerror"), None,
+                        kind="client", label="cb")
         if stream == "forged":
             def forged(t):
                 raw = "%s.waitForTaskToken:asl_workflow_reply_to-inst0" % "12345678-1234-4234-8234-123456789abc"
@@ -389,6 +396,19 @@ def check_token(scn, meta, seed):
         if d1["status"] != "FAILED" or d1.get("error") != "E.Callback" or "callback says no" not in (d1.get("cause") or ""):
             add(findings, "callback-result", "SendTaskFailure(E.Callback): execution ended %s %r %r" % (
                 d1["status"], d1.get("error"), d1.get("cause")), witness=stream)
+    if stream == "failure-no-cause":
+        if d1["status"] != "FAILED" or d1.get("error") != "E.Callback":
+            add(findings, "callback-result", "SendTaskFailure(E.Callback, no cause): execution ended %s %r" % (d1["status"], d1.get("error")),
+                witness=stream)
+    if stream in ("failure-no-error", "failure-typed-wrong"):
+        rec = by.get("noerror")
+        if rec is not None and (rec["status"] >= 500 or rec["status"] < 0):
+            add(findings, "callback-api", "SendTaskFailure %s answered %s %s" % (
+                "without an error name" if stream == "failure-no-error" else "with error/cause of the wrong JSON type",
+                rec["status"], (rec["body"] or "")[:100]), witness=stream)
+        # whatever the API answers, a failure report never completes the task successfully
+        if d1["status"] == "SUCCEEDED":
+            add(findings, "callback-result", "%s: the task SUCCEEDED with %r" % (stream, d1.get("output")), witness=stream)
     if stream in ("late", "forged", "truncated"):
         if d1["status"] != "FAILED" or d1.get("error") != "States.Timeout":
             add(findings, "token-completed-task", "no valid callback was sent in time, yet the execution ended %s %r %r" % (
